@@ -337,6 +337,18 @@ def shard(ctx: Ctx, fmt: str):
             return g
         picks = st.lists(st.tuples(st.integers(0, 3), st.integers(0, 9), st.integers(0, 9), st.booleans()), max_size=4)
         cases = st.tuples(st.tuples(sheets.grids(fmt, headers="any"), picks).map(dupify), optst).map(lambda t: {"grid": t[0], "opts": t[1]})
+        # deterministic part: the largest sampled grids x every combination of the writer's options
+        import itertools
+        okeys = {"xlsx": {"inline_strings": [False, True], "permute_parts": [False, True]}, "ods": {"rle": [False, True], "comments": [False, True], "row_groups": [False, True]}}.get(fmt, {})
+        combos = [dict(zip(sorted(okeys), c)) for c in itertools.product(*[okeys[k] for k in sorted(okeys)])] if okeys else [{}]
+        fixed = 0
+        for g in model.rich_sample({"ext": fmt}, 4, key="c13-grid-" + fmt, strategy=sheets.grids(fmt, headers="plain", max_r=5, max_c=4).map(lambda g: dict(g, units=[]))):
+            g = {k: v for k, v in g.items() if k != "units"}
+            for combo in combos:
+                if len(part.violations) < 3:
+                    part.violations += [v for v in evaluate_grid(ctx, g, fmt, part, combo) if v.signature not in {x.signature for x in part.violations}]
+                fixed += 1
+        part.exhaustive[f"{fmt}: 4 sampled grids x writer option combinations"] = fixed
         hyp_search(ctx, f"c13-{fmt}", cases, lambda c: evaluate_grid(ctx, c["grid"], fmt, part, c["opts"]), n, part)
         cases2 = sheets.grids(fmt, headers="plain").map(lambda g: {"grid": g, "opts": {}})
         hyp_search(ctx, f"c13-{fmt}-plain", cases2, lambda c: evaluate_grid(ctx, c["grid"], fmt, part, c["opts"]), n // 2, part)
@@ -345,6 +357,14 @@ def shard(ctx: Ctx, fmt: str):
         n = ctx.n(200, 4000)
         optst = st.fixed_dictionaries({k: st.sampled_from(v) for k, v in prof.get("opts", {}).items()})
         cases = st.tuples(table_docs(prof), optst).map(lambda t: {"doc": t[0], "opts": t[1]})
+        # deterministic part: table-rich documents x every combination of the renderer's options
+        fixed = 0
+        for d in model.rich_sample(prof, 4, key="c13-" + fmt, strategy=table_docs(prof)):
+            for combo in model.option_combos(prof):
+                if len(part.violations) < 3:
+                    part.violations += [v for v in evaluate_doc(ctx, d, fmt, part, {"opts": combo} if combo else None) if v.signature not in {x.signature for x in part.violations}]
+                fixed += 1
+        part.exhaustive[f"{fmt}: 4 table-rich documents x renderer option combinations"] = fixed
         hyp_search(ctx, f"c13-{fmt}", cases, lambda c: evaluate_doc(ctx, c["doc"], fmt, part, {"opts": c["opts"]} if c.get("opts") else None), n, part)
     return part
 
